@@ -981,6 +981,9 @@ def _byte_terms(e, pid, out):
         if sh is None:
             return False
         e = _ex(c[0])
+    if e.get('kind') == 'CallExpr' and len(children(e)) == 2 and \
+            (strip(children(e)[0]).get('referencedDecl') or {}).get('name') == 'to_integer':
+        e = _ex(children(e)[1])       # std::to_integer<T>(ptr[i]) is the byte, zero-extended
     if e.get('kind') == 'ArraySubscriptExpr':
         c = children(e)
         if _refid(c[0]) == pid and _int(c[1]) is not None:
@@ -1007,6 +1010,40 @@ def _var_terms(e, out):
         out.append((r, sh))
         return True
     return False
+
+
+def _unshifted_sign_extended(e):
+    """In an |-tree that combines 32-bit halves into a 64-bit value: is a half that is not shifted (the low
+    half) widened from a signed 32-bit variable without passing through an unsigned 32-bit type?  Then its
+    sign bit is copied into the upper 32 bits and overwrites the other half.  -> name of the variable or None."""
+    e0 = e
+    e = _ex(e)
+    if e.get('kind') == 'BinaryOperator' and e.get('opcode') == '|':
+        for c in children(e):
+            r = _unshifted_sign_extended(c)
+            if r:
+                return r
+        return None
+    if e.get('kind') == 'BinaryOperator' and e.get('opcode') == '<<':
+        return None
+    if e.get('kind') != 'DeclRefExpr':
+        return None
+    vt = (e.get('type') or '')
+    if 'unsigned' in vt or vt.lstrip('std::').startswith('uint'):
+        return None
+    # the wrappers between the |-operand and the variable, outermost first
+    n = e0
+    types = []
+    while isinstance(n, dict) and n is not e and len(children(n)) == 1:
+        types.append(n.get('type') or '')
+        n = children(n)[0]
+    for t in types:
+        t2 = t.replace('std::', '').strip()
+        if t2 in ('uint32_t', 'unsigned int', 'uint_least32_t', '__uint32_t'):
+            return None
+    if any(('64' in t or 'long' in t) for t in types):
+        return (e.get('referencedDecl') or {}).get('name') or '?'
+    return None
 
 
 def _ret_advance(f, pid):
@@ -1161,6 +1198,11 @@ def _prim_check(f, p, side, prog=None):
                     break
         if not ok or len(targets) != 2:
             return (None, 'combination of the two halves not recognised')
+        sx = _unshifted_sign_extended(init[-1])
+        if sx:
+            return (False, 'the unshifted half `%s` (a signed 32-bit value) is widened to 64 bits without passing '
+                           'through an unsigned 32-bit type: its sign bit is copied into the upper half and '
+                           'overwrites the other word' % sx)
         if chain:
             # each half is read where the previous read ended, and the cursor after the second is returned
             rets = [_refid(y) for n in walk(f.body) if n.get('kind') == 'ReturnStmt' for y in walk(n)
